@@ -100,6 +100,36 @@ def geometry_error(img):
 
 
 
+def ref_len(img):
+    """len() of an image restated from its description alone (the fields the constructor stored: `_size` = explicit size rounded up to the alignment, offset,
+    alignment, binary, sub-images): explicit size wins, else the furthest end of own binary and ALL sub-images, rounded up to the alignment"""
+    if img._size:
+        return img._size
+    ext = max([len(img.binary or b"")] + [c.offset + ref_len(c) for c in img.sub_images])
+    al = img.alignment
+    return (ext + al - 1) // al * al
+
+
+def fits(img):
+    """nothing sticks out anywhere (own binary within the image, every sub-image within its parent, offsets non-negative); siblings MAY overlap"""
+    L = ref_len(img)
+    if len(img.binary or b"") > L:
+        return False
+    return all(c.offset >= 0 and c.offset + ref_len(c) <= L and fits(c) for c in img.sub_images)
+
+
+def len_mismatch(img):
+    """-> first (path, len(), restated length) at which the real len() differs, or None"""
+    todo = [((), img)]
+    while todo:
+        pth, n = todo.pop()
+        r = pyres(len, n)
+        if r != ("ok", ref_len(n)):
+            return (pth, r, ref_len(n))
+        todo.extend((pth + (i,), c) for i, c in enumerate(n.sub_images))
+    return None
+
+
 def ref_block(pattern, n):
     """The documented fill pattern, stated independently of BinaryPattern.get_block: zeros / ones / 0,1,2,... mod 256 /
     the number's own minimal big-endian bytes, repeated from offset 0 and cut to n bytes.  `pattern` is a BinaryPattern, its spec string or None (= zeros)."""
@@ -299,7 +329,22 @@ def run(ck):
         reqs.append(((toks, "len"), "len " + toks, canon(ln)))
         reqs.append(((toks, "export"), "export " + toks, canon(ex)))
         reqs.append(((toks, "validate"), "validate " + toks, "ok" if va[0] == "ok" else ("E:overlap" if va[0] == "E:spsdk" else va[0])))
-        # ---- oracle
+        # ---- oracle, every tree (overlapping layouts included): length restated from the description; where nothing sticks out export() works, has that length,
+        #      and every sub-image's bytes not covered by a later-written sibling sit at its offset
+        lm = len_mismatch(img)
+        s.expect(lm is None, toks, "len() of a node is not its explicit size resp. the furthest end of own binary and all sub-images rounded up to the alignment", lm)
+        s.expect(ex[0] in ("ok", "E:spsdk") or not fits(img), toks, "export() raises a non-SPSDK exception on a tree in which nothing sticks out", ex[0])
+        if fits(img) and ex[0] == "ok":
+            s.expect(len(ex[1]) == ref_len(img), toks, "export() length differs from the image length (nothing sticks out)", (len(ex[1]), ref_len(img)))
+            kids = img.sub_images
+            for j, c in enumerate(kids):
+                cd = pyres(c.export)
+                if cd[0] != "ok":
+                    continue
+                later = [(x.offset, x.offset + ref_len(x)) for x in kids[j + 1:]]
+                bad = [q for q in range(len(cd[1])) if not any(lo <= c.offset + q < hi for lo, hi in later)
+                       and (c.offset + q >= len(ex[1]) or ex[1][c.offset + q] != cd[1][q])]
+                s.expect(not bad, toks, "a sub-image's bytes that no later-written sibling covers do not appear at its offset", (j, bad[:4]))
         gr = pyres(geometry_error, img)
         if gr[0] != "ok":
             s.expect(False, toks, "len() raised on a constructed tree", gr)
@@ -355,10 +400,16 @@ def run(ck):
     for _ in range(ck.budget(300, 5000)):
         offs = [rng.randrange(0, rng.choice([3, 20])) for _ in range(rng.randint(1, 8))]
         p = BinaryImage("p")
+        szs = [rng.choice([1, 1, rng.randint(1, 24)]) for _ in offs]
         for i, o in enumerate(offs):
-            p.add_image(BinaryImage(str(i), size=1, offset=o))
+            p.add_image(BinaryImage(str(i), size=szs[i], offset=o))
         order = ",".join(c.name for c in p.sub_images)
         so.note(tuple(offs))
+        pe = pyres(p.export)
+        far = max(o + z for o, z in zip(offs, szs))
+        so.expect(pyres(len, p) == ("ok", far) and pe[0] == "ok" and len(pe[1]) == far, (offs, szs),
+                  "length of a parent with derived size is not the furthest end of all its children (overlapping ones included), or export() fails / has another length",
+                  (pyres(len, p), pe[0]), far)
         so.expect([c.offset for c in p.sub_images] == sorted(offs), offs, "add_image does not keep the children sorted by offset", order)
         reqs.append((offs, "order " + " ".join(map(str, offs)), "ok:" + order))
         q = BinaryImage("q", binary=bytes(rng.randrange(0, 9)), alignment=rng.choice([1, 4]))
@@ -825,9 +876,9 @@ def tree_ops(ck, drv):
                 so.expect(pth is not None, inp, "get_image_by_absolute_address returned an object that is not in the tree")
                 if pth is None:
                     continue
-                ab = node.absolute_address
+                ab = next(a0 for n0, a0 in nodes if n0 is node)   # sum of the offsets down to the node (BinaryImage.absolute_address tests `if self.parent:`, i.e. len(parent) != 0)
                 so.expect(node is want, inp, "get_image_by_absolute_address does not return the (first, deepest) image that contains the address",
-                          (pth, ab, len(node)), None if want is None else (path_of(img, want), want.absolute_address, len(want)), finding=fnd)
+                          (pth, ab, len(node)), None if want is None else (path_of(img, want), next(a0 for n0, a0 in nodes if n0 is want), len(want)), finding=fnd)
                 reqs.append((inp, f"getaddr {a} {toks}", "ok:" + (",".join(map(str, pth)) if pth else "-") + f" {ab} {len(node)}"))
             else:
                 so.expect(r[0] == "E:spsdk" and want is None, inp, "get_image_by_absolute_address refuses an address some image contains (or raises a non-SPSDK error)", r, finding=fnd)
